@@ -20,6 +20,20 @@ pub struct AllOpt {
 #[zlink(interface = "a", crate = "zlink_core")]
 pub enum EEmpty {}
 
+/// The error type of an interface that declares a single error without parameters: it has no size, yet a variant.
+#[derive(Debug, ReplyError, PartialEq)]
+#[zlink(interface = "a", crate = "zlink_core")]
+pub enum EOne {
+    NotFound,
+}
+
+/// ... and of one that declares a single error with parameters.
+#[derive(Debug, ReplyError, PartialEq)]
+#[zlink(interface = "a", crate = "zlink_core")]
+pub enum EOneF {
+    Bad { code: i32, why: String },
+}
+
 #[proxy(interface = "c04.I", crate = "zlink_core")]
 pub trait P04 {
     async fn unit_ea(&mut self) -> zlink_core::Result<Result<(), EA>>;
@@ -29,6 +43,9 @@ pub trait P04 {
     async fn unit_empty(&mut self) -> zlink_core::Result<Result<(), EEmpty>>;
     async fn unit_svc(&mut self) -> zlink_core::Result<Result<(), varlink_service::Error>>;
     async fn allopt_empty(&mut self) -> zlink_core::Result<Result<AllOpt, EEmpty>>;
+    async fn unit_one(&mut self) -> zlink_core::Result<Result<(), EOne>>;
+    async fn value_one(&mut self) -> zlink_core::Result<Result<Value, EOne>>;
+    async fn allopt_onef(&mut self) -> zlink_core::Result<Result<AllOpt, EOneF>>;
 }
 
 /// What the caller observed, canonically.
@@ -262,7 +279,7 @@ macro_rules! combo {
                 }
             };
             for &(ctx, pad) in $variants.iter() {
-            for path in ["receive_reply", "call_method", "proxy"] {
+            for path in ["receive_reply", "call_method", "proxy", "chain"] {
                 let wire = new_wire(0);
                 let padded = pad_frame(&fr.text, pad);
                 {
@@ -294,6 +311,25 @@ macro_rules! combo {
                 let seen = match path {
                     "receive_reply" => seen_of(vnet::block_on(conn.receive_reply::<$P, $E>(), 3)),
                     "call_method" => seen_of(vnet::block_on(conn.call_method::<_, $P, $E>(&call), 3)),
+                    "chain" => {
+                        // the reply as the first item of a chain's reply stream
+                        use futures_util::StreamExt;
+                        match conn.chain_call::<MA, $P, $E>(&call) {
+                            Err(e) => Seen::Failed(format!("chain_call: {e:?}")),
+                            Ok(chain) => match vnet::block_on(chain.send(), 3) {
+                                Some(Ok(st)) => {
+                                    let mut st = core::pin::pin!(st);
+                                    match vnet::block_on(st.next(), 3) {
+                                        None => Seen::Stalled,
+                                        Some(None) => Seen::Failed("the stream ended without an item".into()),
+                                        Some(Some(r)) => seen_of(Some(r)),
+                                    }
+                                }
+                                Some(Err(e)) => Seen::Failed(format!("send: {e:?}")),
+                                None => Seen::Stalled,
+                            },
+                        }
+                    }
                     _ => seen_of_proxy(vnet::block_on(conn.$proxy(), 3)),
                 };
                 if ctx > 0 { $rep.count("cases_with_connection_history"); }
@@ -367,6 +403,9 @@ pub fn run(cfg: &Cfg) -> Report {
     combo!(rep, cfg, frames, variants, (), EEmpty, "()", "EEmpty", unit_empty, true);
     combo!(rep, cfg, frames, variants, (), varlink_service::Error, "()", "varlink_service::Error", unit_svc, true);
     combo!(rep, cfg, frames, variants, AllOpt, EEmpty, "AllOpt", "EEmpty", allopt_empty, false);
+    combo!(rep, cfg, frames, variants, (), EOne, "()", "EOne", unit_one, true);
+    combo!(rep, cfg, frames, variants, Value, EOne, "Value", "EOne", value_one, false);
+    combo!(rep, cfg, frames, variants, AllOpt, EOneF, "AllOpt", "EOneF", allopt_onef, false);
     // borrowed parameter type: receive_reply / call_method only (exercised through a helper fn so
     // that the lifetime is tied to the connection borrow)
     borrowed(&mut rep, cfg, &frames);
